@@ -140,15 +140,18 @@ Definition fp_mul (a : fp) (x : Q) : result fp :=
   rbind (from_fingerprint (fkind a) a) (fun cf =>
   Ok (set_counts (fkind a) cf (map (fun kv => (fst kv, (snd kv * x)%Q)) (fcnt a)))).
 
+(* a / x: the copy is made first, then every count is divided: ZeroDivisionError (EOther) only if there is a count *)
 Definition fp_div (a : fp) (x : Q) : result fp :=
-  if Qeq_bool x 0 then Raises EOther else
   rbind (from_fingerprint KFloat a) (fun cf =>
+  if Qeq_bool x 0 && negb (match fcnt a with [] => true | _ => false end) then Raises EOther else
   Ok (set_counts KFloat cf (map (fun kv => (fst kv, (snd kv / x)%Q)) (fcnt a)))).
 
+(* a // x: counts v >= x are kept and divided: ZeroDivisionError (EOther) only if x = 0 and some count is >= 0 *)
 Definition fp_floordiv (a : fp) (x : Q) : result fp :=
-  if Qeq_bool x 0 then Raises EOther else
   rbind (from_fingerprint KCount a) (fun cf =>
-  let c := map (fun kv => (fst kv, (snd kv / x)%Q)) (filter (fun kv => Qle_bool x (snd kv)) (fcnt a)) in
+  let kept := filter (fun kv => Qle_bool x (snd kv)) (fcnt a) in
+  if Qeq_bool x 0 && negb (match kept with [] => true | _ => false end) then Raises EOther else
+  let c := map (fun kv => (fst kv, (snd kv / x)%Q)) kept in
   let cf' := set_counts KCount cf c in
   Ok (mkfp (fkind cf') (fbits cf') (flevel cf') (usort (ckeys c)) (fcnt cf') (fname cf'))).
 
@@ -165,10 +168,15 @@ Definition all_keys (l : list fp) : list Z := usort (concat (map (fun a => ckeys
 
 Definition ones (n : nat) : list Q := repeat 1%Q n.
 
+(* every member must have the length of the first one (checked before anything else) *)
+Definition batch_bits_ok (l : list fp) : bool :=
+  match l with [] => true | a0 :: _ => forallb (fun a => fbits a =? fbits a0) l end.
+
 Definition batch_add (l : list fp) (w : option (list Q)) : result (option fp) :=
   match l with
   | [] => Ok None
   | a0 :: _ =>
+    if negb (batch_bits_ok l) then Raises EBits else
     match w with
     | None =>
       let k := if any_float l then KFloat else KCount in
